@@ -447,7 +447,8 @@ def check_C17(tier, seed):
     o.assumptions = ['the harness translation unit asim/worlds/cppobj.cpp instantiates every public member and overload; a compile error located in a /repo header is reported as a C17 violation',
                      'model = (key bytes, 128-bit nonce) or the call transcript, evaluated through the C API of the same library',
                      'after clear() the object is re-keyed before further use; after a REJECTED set_key (returns false: "the key was not set") the object goes on under its old key in half of the cases',
-                     'after a failed byte_array decrypt the output array may be empty, all zero or untouched; bytes derived from the rejected packet are not accepted']
+                     'after a failed byte_array decrypt every byte of the output array must be zero or what the array held at that index before the call; bytes derived from the rejected packet are not accepted',
+                     'ASCON_NO_STL configuration: the std::string overloads do not exist there and are replaced by the pointer overloads in the harness']
     exe, v = compile_obligation('C17', 'cppobj')
     if not v:
         # the same translation unit against the headers in the ASCON_NO_STL configuration (the library's own byte_array)
@@ -513,7 +514,9 @@ def check_C13(tier, seed):
     o.assumptions = ['twin-secret oracle: the same plan is executed twice in one process with different keys, messages, fed entropy and entropy tape; '
                      'after every free / clear() / destructor the raw bytes of the object must be identical in the two executions',
                      'C++ objects are placement-constructed in harness-owned storage so that their bytes stay readable after the destructor',
-                     'constant residue (e.g. a vtable pointer, zeroes, 0xD7 dirt that was never written) is allowed: only dependence on secrets is flagged']
+                     'constant residue (e.g. a vtable pointer, zeroes, 0xD7 dirt that was never written) is allowed: only dependence on secrets is flagged',
+                     'history-independence oracle (worlds stream, prng, C++ cipher classes): the freed bytes must equal what init+free alone leaves in the same '
+                     'or identically filled memory; clear() of the masked C++ classes is exempt (it may leave a freshly masked zero key)']
     backends = ['asm', 'c32', 'c64', 'dxor', 'gen']
     scale = 1 if tier == 'quick' else 12
     for bi, be in enumerate(backends):
